@@ -11,7 +11,7 @@ import itertools
 
 import numpy as np
 
-from ..instrument import TopoPerturb
+from ..instrument import TopoPerturb, MergeProgress, NoProgress
 from ..common import setup_paths
 
 PROPERTY = "C04"
@@ -27,7 +27,7 @@ ASSUMPTIONS = [
     "optimize_circuit is judged on the multiset/order clause only when no merge succeeded (merging is C03)",
 ]
 REQUIRED_MONITORS = ["order:DAG_to_list", "multiset:DAG_to_list", "partition:group_operations",
-                     "gbs:accept-reject", "grid:wires"]
+                     "gbs:accept-reject", "grid:wires", "order:gaussian_merge", "termination:gaussian_merge"]
 EXHAUSTIVE = True
 
 
@@ -293,7 +293,9 @@ def run_sequence(ctx, rep, symseq, nm, K, rng, case_id):
             exp_ok, why = gbs_expected_valid(symseq)
             rep.monitor("gbs:accept-reject")
             try:
-                res = ctx.GBS().compile(list(cmds), regs)
+                # Program.compile hands a compiler `Program.register`: the RegRefs that are still active, so after a
+                # deletion a position in that list is no longer a subsystem index
+                res = ctx.GBS().compile(list(cmds), [r for r in regs if r.active])
                 ok = True
             except pu.CircuitError as e:
                 ok = False
@@ -341,6 +343,16 @@ def cmds_index(cmds, c):
     return -1
 
 
+def place_del(seq, m, interior):
+    """Deletion of subsystem m: as the last command, or (interior) straight after the last command that involves m, so that
+    commands on the other subsystems - Fock measurements on higher-numbered ones in particular - follow it."""
+    d = ("del", (m,), None)
+    if not interior:
+        return list(seq) + [d]
+    last = max([i for i, s in enumerate(seq) if m in sym_deps(s)], default=-1)
+    return list(seq[:last + 1]) + [d] + list(seq[last + 1:])
+
+
 def random_symseq(rng, nm, length):
     syms = alphabet(nm) if nm <= 4 else None
     seq = []
@@ -369,47 +381,62 @@ def random_symseq(rng, nm, length):
 def gaussian_merge_order(ctx, rep, rng, n_cases):
     """Order clause for GaussianMerge.compile / Program.compile('gaussian_merge'): the commands the
     compiler keeps (non-Gaussian ones, same objects) keep their relative order when they share a mode;
-    through the real Program.compile flow under TopoPerturb."""
-    sf, ops = ctx.sf, ctx.ops
+    through the real Program.compile flow under TopoPerturb.  The rewrite loop is watched by MergeProgress."""
     for ci in range(n_cases):
         nm = int(rng.integers(2, 5))
-        length = int(rng.integers(4, 14))
-        prog = sf.Program(nm)
+        length = int(rng.integers(4, 14)) if ci % 4 else int(rng.integers(12, 22))
         spec = []
-        with prog.context as q:
-            for pos in range(length):
-                r = rng.random()
-                if r < 0.3:
-                    m = int(rng.integers(nm))
-                    cls = ["Kgate", "Vgate"][int(rng.integers(2))]
-                    getattr(ops, cls)(0.1 + 0.01 * pos) | q[m]
-                    spec.append([cls, [m]])
-                elif r < 0.4:
-                    a, b = (int(x) for x in rng.choice(nm, 2, replace=False))
-                    ops.CKgate(0.1 + 0.01 * pos) | (q[a], q[b])
-                    spec.append(["CKgate", [a, b]])
-                elif r < 0.7:
-                    m = int(rng.integers(nm))
-                    cls = ["Sgate", "Rgate", "Dgate"][int(rng.integers(3))]
-                    getattr(ops, cls)(0.1 + 0.01 * pos) | q[m]
-                    spec.append([cls, [m]])
-                else:
-                    a, b = (int(x) for x in rng.choice(nm, 2, replace=False))
-                    cls = ["BSgate", "S2gate"][int(rng.integers(2))]
-                    getattr(ops, cls)(0.1 + 0.01 * pos, 0.3) | (q[a], q[b])
-                    spec.append([cls, [a, b]])
-        pseed = int(rng.integers(2 ** 31))
+        for pos in range(length):
+            r = rng.random()
+            if nm >= 3 and r < 0.07:
+                # a Gaussian operation on three modes has three direct predecessors: fan-in of unrelated one-mode gates
+                spec.append(["Interferometer", [int(x) for x in rng.choice(nm, 3, replace=False)]])
+            elif r < 0.3:
+                spec.append([["Kgate", "Vgate"][int(rng.integers(2))], [int(rng.integers(nm))]])
+            elif r < 0.4:
+                spec.append(["CKgate", [int(x) for x in rng.choice(nm, 2, replace=False)]])
+            elif r < 0.7:
+                spec.append([["Sgate", "Rgate", "Dgate"][int(rng.integers(3))], [int(rng.integers(nm))]])
+            else:
+                spec.append([["BSgate", "S2gate"][int(rng.integers(2))], [int(x) for x in rng.choice(nm, 2, replace=False)]])
+        if nm >= 3 and ci % 5 == 1:
+            # fan-in motif: two-mode non-Gaussian gate, one-mode Gaussian gates on two different modes, three-mode Gaussian
+            # operation with all three as direct predecessors
+            a, b, c = (int(x) for x in rng.choice(nm, 3, replace=False))
+            one = lambda: ["Dgate", "Dgate", "Sgate", "Rgate"][int(rng.integers(4))]
+            at = int(rng.integers(0, len(spec) + 1))
+            spec[at:at] = [["CKgate", [a, b]], [one(), [b]], [one(), [c]], ["Interferometer", [int(x) for x in rng.permutation([a, b, c])]]]
+        run_gm_case(ctx, rep, spec, nm, int(rng.integers(2 ** 31)))
+
+
+def run_gm_case(ctx, rep, spec, nm, pseed):
+    sf, ops = ctx.sf, ctx.ops
+    prog = sf.Program(nm)
+    with prog.context as q:
+        for pos, (cls, modes) in enumerate(spec):
+            par = (0.1 + 0.01 * pos, 0.3) if cls in ("BSgate", "S2gate") else (0.1 + 0.01 * pos,)
+            if cls == "Interferometer":
+                from .. import gen
+                par = (gen.haar(np.random.default_rng(pos), 3),)
+            getattr(ops, cls)(*par) | tuple(q[m] for m in modes)
+    case = {"gm_spec": spec, "nm": nm, "pseed": pseed}
+    for _once in (0,):
         nong = [c for c in prog.circuit if type(c.op).__name__ in ("Kgate", "Vgate", "CKgate")]
         rep.case(["gm", spec], len(nong) >= 2)
-        with TopoPerturb(np.random.default_rng(pseed)):
+        with TopoPerturb(np.random.default_rng(pseed)), MergeProgress() as mp:
             try:
                 comp = prog.compile(compiler="gaussian_merge")
+            except NoProgress as e:
+                rep.monitor("termination:gaussian_merge")
+                rep.violation("GaussianMerge.compile", "no-progress", "the rewrite loop never ends: %s" % str(e)[:300], case)
+                continue
             except Exception as e:  # C11 judges exceptions; here only ordering
                 rep.observe("gaussian_merge.exception:" + type(e).__name__)
                 continue
         rep.monitor("order:gaussian_merge")
+        rep.monitor("termination:gaussian_merge")
+        rep.observe("gaussian_merge.rewrite-steps<=%d" % (4 * ((mp.max_steps + 3) // 4)))
         kept = [c for c in comp.circuit if type(c.op).__name__ in ("Kgate", "Vgate", "CKgate")]
-        case = {"gm_spec": spec, "nm": nm, "pseed": pseed}
         if sorted(map(id, kept)) != sorted(map(id, nong)):
             # compilers may legitimately re-create commands: compare by (class, modes, param) instead
             sig = lambda c: (type(c.op).__name__, tuple(r.ind for r in c.reg), float(c.op.p[0]))
@@ -442,8 +469,8 @@ def run_shard(shard, rep):
             seq = [syms[i] for i in tup]
             if cid % 3 == 2:
                 # every third sequence ends with the deletion of one subsystem (always legal as the last command)
-                seq = seq + [("del", ((cid // 3) % 3,), None)]
-                rep.observe("enumerated-with-trailing-Del")
+                seq = place_del(seq, (cid // 3) % 3, interior=(cid // 9) % 2 == 1)
+                rep.observe("enumerated-with-Del")
             run_sequence(ctx, rep, seq, 3, kk, rng, cid)
             cid += 1
     rep.observe("enumerated-sequences", cid)
@@ -452,7 +479,7 @@ def run_shard(shard, rep):
         seq = random_symseq(rng, nm, int(rng.integers(5, 41)))
         if rng.random() < 0.4:
             for m in sorted(int(x) for x in rng.choice(nm, int(rng.integers(1, 3)), replace=False)):
-                seq.append(("del", (m,), None))
+                seq = place_del(seq, m, interior=bool(rng.random() < 0.5))
         run_sequence(ctx, rep, seq, nm, K, rng, cid)
         cid += 1
         rep.observe("random-sequences")
@@ -462,7 +489,7 @@ def run_shard(shard, rep):
 def replay(case, rep):
     ctx = Ctx()
     if "gm_spec" in case:
-        rep.skip("gaussian_merge replay not supported; rerun the shard seed")
+        run_gm_case(ctx, rep, [[c, list(m)] for c, m in case["gm_spec"]], case["nm"], case["pseed"])
         return
     symseq = [(s[0], tuple(s[1]), s[2]) for s in case["symseq"]]
     rng = np.random.default_rng(case.get("pseed") or 0)
